@@ -14,7 +14,13 @@ mkdir -p .build bin evidence
 build() {
   python3 "$ROOT/mkoverlay.py" "$REPO" "$ROOT/.build" ${VERIF_MUTANT:-} || { echo "HARNESS-ERROR overlay generation failed"; exit 2; }
   cp "$REPO/go.sum" harness/go.sum 2>/dev/null
-  (cd harness && go build -tags verif -overlay "$ROOT/.build/overlay.json" -o "$ROOT/bin/verif" ./cmd/verif) > .build/build.log 2>&1
+  MODFLAG=""
+  if [ "$REPO" != "/repo" ]; then
+    # scratch copy of the repository (seeded-change experiments): same harness, module replaced by $REPO
+    sed "s#=> /repo#=> $REPO#" harness/go.mod > harness/go.alt.mod; cp harness/go.sum harness/go.alt.sum
+    MODFLAG="-modfile=go.alt.mod"
+  fi
+  (cd harness && go build $MODFLAG -tags verif -overlay "$ROOT/.build/overlay.json" -o "$ROOT/bin/verif" ./cmd/verif) > .build/build.log 2>&1
   if [ $? -ne 0 ]; then
     echo "BUILD-FAILURE (not a property violation): $REPO with hooks does not build" ; tail -30 .build/build.log; exit 2
   fi
@@ -22,7 +28,7 @@ build() {
 # free-running race monitor of C12 (separate -race binary: the cooperative scheduler's hand-offs are
 # happens-before edges and would blind the detector)
 build_race() {
-  (cd harness && CGO_ENABLED=1 go build -race -tags verif -overlay "$ROOT/.build/overlay.json" -o "$ROOT/bin/verif-race" ./cmd/verif) > .build/build-race.log 2>&1
+  (cd harness && CGO_ENABLED=1 go build ${MODFLAG:-} -race -tags verif -overlay "$ROOT/.build/overlay.json" -o "$ROOT/bin/verif-race" ./cmd/verif) > .build/build-race.log 2>&1
   if [ $? -ne 0 ]; then
     echo "BUILD-FAILURE (not a property violation): race build failed"; tail -30 .build/build-race.log; exit 2
   fi
